@@ -374,6 +374,11 @@ pub fn gen_c06(out: &mut dyn Write, thorough: bool, seed: u64) {
                     ops2.push_str(&format!(",setb:{}:{}", r.below(n - 1), r.pick(&['N', 'W', 'W', 'U'])));
                 }
                 writeln!(out, "H {CFG} {mt}^1{store} {ops2},fill,obs:BKGIC,tspec:0 c06").unwrap();
+                // ... and moved BACK and filled a third time (join two tokens, split them again): what an earlier fill left at a
+                // position must not survive into a later one, whatever the token at that position was in between
+                let i = r.below(n - 1);
+                writeln!(out, "H {CFG} {mt}^1{store} Fraw:{},pred:0,setb:{i}:W,fill,setb:{i}:N,fill,setb:{i}:W,fill,obs:BKGIC,tspec:0 c06", hexs(&text)).unwrap();
+                writeln!(out, "H {CFG} {mt}^1{store} Fraw:{},pred:0,fill,setbs:{},fill,setbs:{},fill,obs:BKGIC,tspec:0 c06", hexs(&text), "N".repeat(n - 1), "W".repeat(n - 1)).unwrap();
             }
         }
         // one category with very many candidates (more than any one-byte index can address), the best one late
